@@ -28,6 +28,7 @@ func vxBool(name string) bool
 func vxTime(name string, lo, hi int64) time.Time
 func vxChoice(name string, n int) int
 func vxConcrete(v int) int
+func vxConcreteBool(b bool) bool
 func vxConcreteStr(s string) string
 func vxShape(s string, structural string) string
 func vxAssume(c bool)
